@@ -22,7 +22,7 @@ type Site struct {
 	ID   uint32 `json:"id"`
 	File string `json:"file"` // repository-relative
 	Line int    `json:"line"`
-	Kind string `json:"kind"` // func | loop | pre | post | make
+	Kind string `json:"kind"`          // func | loop | pre | post | make
 	Hot  string `json:"hot,omitempty"` // "" | r | w
 	Fn   string `json:"fn,omitempty"`
 	What string `json:"what,omitempty"` // the shared candidate that made it hot
@@ -37,12 +37,14 @@ type Table struct {
 	// (go statements, channels, select, sync imports).
 	Degraded []string `json:"degraded,omitempty"`
 	PkgVars  int      `json:"pkgvars"`
+	MapLoops int      `json:"maploops"` // map-range loops put behind the MapKeys seam
 }
 
 type edit struct {
 	off  int
 	text string
 	seq  int
+	del  int // bytes of the original removed at off (0 = pure insertion)
 }
 
 type fileCtx struct {
@@ -74,7 +76,7 @@ func (c *ctx) newSite(pos token.Pos, kind, hot, what string) uint32 {
 
 func (c *ctx) insert(pos token.Pos, text string) {
 	c.seq++
-	c.fc.edits = append(c.fc.edits, edit{c.fc.tf.Offset(pos), text, c.seq})
+	c.fc.edits = append(c.fc.edits, edit{off: c.fc.tf.Offset(pos), text: text, seq: c.seq})
 }
 
 // skipDir reports directories that are not library code.
@@ -141,7 +143,7 @@ func Instrument(root, mod string, env []string) (*Table, error) {
 			}
 			// import on the package clause line
 			c.seq++
-			c.fc.edits = append(c.fc.edits, edit{c.fc.tf.Offset(f.Name.End()), `; import verifrt "` + mod + `/verifrt"`, -1})
+			c.fc.edits = append(c.fc.edits, edit{off: c.fc.tf.Offset(f.Name.End()), text: `; import verifrt "` + mod + `/verifrt"`, seq: -1})
 			if err := c.fc.apply(); err != nil {
 				return nil, err
 			}
@@ -160,9 +162,12 @@ func (fc *fileCtx) apply() error {
 	var b strings.Builder
 	last := 0
 	for _, e := range fc.edits {
+		if e.off < last {
+			return fmt.Errorf("%s: overlapping edits at offset %d", fc.rel, e.off)
+		}
 		b.Write(fc.src[last:e.off])
 		b.WriteString(e.text)
-		last = e.off
+		last = e.off + e.del
 	}
 	b.Write(fc.src[last:])
 	return os.WriteFile(fc.path, []byte(b.String()), 0o644)
@@ -254,7 +259,9 @@ func (c *ctx) doStmt(s ast.Stmt, inList bool) {
 		c.doBody(n.Body, "loop")
 	case *ast.RangeStmt:
 		c.hotAround(outer, s, inList, []ast.Node{n.X}, false)
-		c.exprFuncLits(n.X)
+		if !c.mapRange(n) {
+			c.exprFuncLits(n.X)
+		}
 		c.doBody(n.Body, "loop")
 	case *ast.SwitchStmt:
 		c.hotAround(outer, s, inList, headerExprs(n.Init, n.Tag), false)
@@ -618,4 +625,99 @@ func (c *ctx) classify(n ast.Node) (hot, what string) {
 		return true
 	})
 	return
+}
+
+// ---- map iteration seam -------------------------------------------------------
+
+// pureExpr: evaluating it twice is the same as evaluating it once.
+func pureExpr(e ast.Expr) bool {
+	switch v := e.(type) {
+	case *ast.Ident, *ast.BasicLit:
+		return true
+	case *ast.SelectorExpr:
+		return pureExpr(v.X)
+	case *ast.IndexExpr:
+		return pureExpr(v.X) && pureExpr(v.Index)
+	case *ast.ParenExpr:
+		return pureExpr(v.X)
+	case *ast.StarExpr:
+		return pureExpr(v.X)
+	}
+	return false
+}
+
+// mapRange rewrites `for k, v := range m {` over a map with an ordered key type
+// into `for _, vk := range verifrt.MapKeys(m) { k := vk; v := m[vk];`, which puts
+// the one source of nondeterminism inside the library (hash-map iteration
+// order) behind a seam: native random order by default, sorted when the
+// simulator asks for exactly repeatable schedules. Any order it produces is an
+// order the original loop could have taken. Loops whose body deletes from or
+// assigns into the ranged map, or whose map expression is not side-effect
+// free, are left alone.
+func (c *ctx) mapRange(n *ast.RangeStmt) bool {
+	tv, ok := c.pkg.TypesInfo.Types[n.X]
+	if !ok {
+		return false
+	}
+	mt, ok := tv.Type.Underlying().(*types.Map)
+	if !ok {
+		return false
+	}
+	if b, ok := mt.Key().Underlying().(*types.Basic); !ok || b.Info()&types.IsOrdered == 0 {
+		return false
+	}
+	if !pureExpr(n.X) {
+		return false
+	}
+	xs := c.text(n.X)
+	mutates := false
+	ast.Inspect(n.Body, func(x ast.Node) bool {
+		switch v := x.(type) {
+		case *ast.CallExpr:
+			if id, ok := v.Fun.(*ast.Ident); ok && (id.Name == "delete" || id.Name == "clear") {
+				mutates = true
+			}
+		case *ast.AssignStmt:
+			for _, l := range v.Lhs {
+				if ix, ok := l.(*ast.IndexExpr); ok && c.text(ix.X) == xs {
+					mutates = true
+				}
+			}
+		}
+		return !mutates
+	})
+	if mutates {
+		return false
+	}
+	id := len(c.tab.Sites) // unique suffix
+	vk := fmt.Sprintf("verifK%d", id)
+	var pre strings.Builder
+	fmt.Fprintf(&pre, "for _, %s := range verifrt.MapKeys(%s) {", vk, xs)
+	asg := ":="
+	if n.Tok == token.ASSIGN {
+		asg = "="
+	}
+	isBlank := func(e ast.Expr) bool {
+		if e == nil {
+			return true
+		}
+		idn, ok := e.(*ast.Ident)
+		return ok && idn.Name == "_"
+	}
+	if !isBlank(n.Key) {
+		fmt.Fprintf(&pre, "%s %s %s;", c.text(n.Key), asg, vk)
+	}
+	if !isBlank(n.Value) {
+		fmt.Fprintf(&pre, "%s %s %s[%s];", c.text(n.Value), asg, xs, vk)
+	}
+	c.seq++
+	off := c.fc.tf.Offset(n.For)
+	end := c.fc.tf.Offset(n.Body.Lbrace) + 1
+	c.fc.edits = append(c.fc.edits, edit{off: off, text: pre.String(), seq: c.seq, del: end - off})
+	c.tab.MapLoops++
+	return true
+}
+
+func (c *ctx) text(e ast.Node) string {
+	return string(c.fc.src[c.fc.tf.Offset(e.Pos()):c.fc.tf.Offset(e.End())])
 }
